@@ -18,7 +18,7 @@ WATER_BOUNDS = {
              "20 sub-daily steps with the true sub-step demand, evaporation depth from {0.15, 0.237, 0.3} m, layer expansion cut after 2 iterations; "
              "transpiration: rooting depth from a 2-point grid per profile, degree days from a 3-point grid, cold-stress/ageing regimes enumerated",
     "thorough": "2 and 3 compartments, all 15 built-in soils plus 4 layered and 2 uneven-thickness profiles; evaporation: first sub-step, 4 evaporation depths, 3 profiles, "
-                "full (unpartitioned) regime for one configuration; infiltration: 2 compartments only (3 take > 1 h per configuration); drainage: 3 compartments for 2 profiles; "
+                "infiltration: 2 compartments only (3 take > 1 h per configuration); drainage: 3 compartments for 2 profiles; "
                 "transpiration: 3 rooting depths, 5 degree-day values, 4 crops",
 }
 
@@ -44,7 +44,7 @@ prop("C02", bounds=WATER_BOUNDS,
 prop("C03", bounds=WATER_BOUNDS, outside=["initial water content construction (C18, not applicable)"], budget_s={"quick": 1500, "thorough": 14400})
 prop("C04", bounds=WATER_BOUNDS,
      outside=["potential-evaporation section and extraction section of soil_evaporation / transpiration are explored in separate partitions (quick tier); "
-              "the unpartitioned function only for one configuration in the thorough tier"],
+              "an unpartitioned configuration (all inputs symbolic) was tried in the thorough tier and left one path of 1.5e5 undecided for C03 (abstract counterexample, exact NRA unknown): it is not part of either tier"],
      budget_s={"quick": 1800, "thorough": 14400})
 prop("C05",
      bounds={"quick": "8 calendar-day crops (canopy: Maize, Cotton; roots: Maize, Wheat, Potato; harvest index: Maize, Wheat, Potato), one day from an arbitrary INV state; "
